@@ -1,4 +1,4 @@
 CONSTANTS MaxSub = 12  MaxEv = 64  OrderedPub = FALSE
 SPECIFICATION TSpec
-INVARIANTS NoBlocked NoTimeout ExactlyOnceInOrder ReadersOK ReaderMatchesLoop NoLoss EndComplete
+INVARIANTS NoBlocked NoTimeout ExactlyOnceInOrder ReadersOK ReaderMatchesLoop TraceNoLoss EndComplete CloseReturns
 CHECK_DEADLOCK FALSE
